@@ -112,11 +112,12 @@ CLAIMS["C02"] = {
 }
 CLAIMS["C05"] = {
     "engine": "S+R", "level": "translation_validation",
-    "technique": "translation validation with the peephole optimizer on and off (hook ABRA_VERIF_NO_OPT): symbolic execution of both bytecodes vs the reference, z3 per joint path; literal vs variable operand forms compared by z3",
+    "technique": "translation validation with the peephole optimizer on and off (hook ABRA_VERIF_NO_OPT): symbolic execution of both bytecodes vs the reference, z3 per joint path; literal vs variable operand forms compared by z3; Kani/CBMC on every immediate arm of the real step()",
     "text": "Every operator template in variable, literal-operand (0, 1, -1, 7, MAX, MIN), literal-left and compound-assignment form is compiled "
             "twice by the real compiler (optimizer on / off) and both bytecodes are validated against R for all inputs; float immediates are "
-            "compared S-vs-S with the variable form for all non-NaN x, and the constant fold of 1.0 / 0.0 must keep the error. A fold rule or an "
-            "immediate arm that differs for one operand value is a z3 model, replayed on the real VM.",
+            "compared S-vs-S with the variable form for all non-NaN x, and the constant fold of 1.0 / 0.0 must keep the error. A fold rule that "
+            "differs for one operand value is a z3 model, replayed on the real VM. The immediate arms of the real step() themselves are decided by "
+            "CBMC for all operand values against the oracle of the variable arms (C15 / C16 harness families, *Imm members).",
     "note": TV_NOTE + " The Kani-level validation of optimize() itself did not finish (900 s, Vec<Line> with String payloads) and is not part of the claim.",
 }
 CLAIMS["C18"] = {
@@ -145,6 +146,117 @@ CLAIMS["C23"] = {
             "covered for all payloads, and z3 must refute a difference in result, output or termination against R.",
     "note": TV_NOTE,
 }
+M2_NOTE = ("Trusted: engine M2 (/verif/mir/mirvm.py), a symbolic interpreter of the nightly MIR text of the named functions (re-dumped from /repo on every run); "
+           "the library summaries listed in the evidence; nightly MIR == stable semantics for these functions; z3. Unknown MIR constructs or calls make the "
+           "check INCONCLUSIVE, never a pass. Counterexamples are replayed on the real functions in a native test before they are reported.")
+CLAIMS["C01"] = {
+    "engine": "K", "level": "model_checking",
+    "technique": "bounded model checking of the real VM step() arms with Kani/CBMC from symbolic frames (tag discipline, stack effect, no Rust panic); program-level stack discipline via engine S in C02",
+    "text": "Every stack, constant, jump, call/return, struct/variant/closure, boolean and string-intrinsic arm of the real step() is run by CBMC from a "
+            "frame with symbolic payloads and the operand tags the compiler guarantees: a tag mismatch (internal fault), an underflow, a wrong stack "
+            "effect or a Rust panic is a failed check; the register decoding is checked for every 15-bit offset. Whole-program faults (operand stack "
+            "desynchronisation across instructions) are decided by the symbolic execution of compiled templates in ./check C02, where an internal fault "
+            "is a violation.",
+    "note": K_NOTE,
+}
+CLAIMS["C06"] = {
+    "engine": "K", "level": "model_checking",
+    "technique": "Kani/CBMC on single collector and mutator steps of the real tricolour GC (write barrier, allocation colour, process_gray per object kind, Marking->Sweeping switch, root scan)",
+    "text": "One-step obligations on the real collector code over small heaps with symbolic/enumerated colours: the write barrier re-grays, objects "
+            "allocated during a cycle are not white, one process_gray iteration blackens an object and grays its white children for every object kind, "
+            "the switch to sweeping happens only when no root (operand stack, parked string operands) is white, the root scan grays every root. "
+            "Together they imply that no reachable object is swept; the implication is an argument, each step is solver-checked.",
+    "note": K_NOTE,
+}
+CLAIMS["C07"] = {
+    "engine": "K+M2", "level": "model_checking",
+    "technique": "Kani/CBMC on one sweep step and the pacing trigger; symbolic execution of the MIR of the Drop implementations and ObjectHeader::dealloc with z3 (every object released exactly once)",
+    "text": "Reclamation: one real sweep iteration over a two-object heap with symbolic mark bits frees exactly the unmarked object, keeps the accounting and "
+            "ends the phase; the pacing trigger fires for all heap sizes when the heap doubled. Release on drop: the MIR of Drop for VmGreenThread, "
+            "ObjectHeader::dealloc and Drop for VmSharedReadonly is executed over heaps of 0..3 objects of symbolic kind and size: every object and every "
+            "string constant is released exactly once, as its own kind, and heap_size returns to zero.",
+    "note": K_NOTE + " " + M2_NOTE,
+}
+CLAIMS["C08"] = {
+    "engine": "K", "level": "model_checking",
+    "technique": "Kani/CBMC on one real SpawnTask step per capture kind (deep_copy recursion unwound with unwinding assertions)",
+    "text": "One real SpawnTask step with a capture of every value kind (symbolic scalars, strings, arrays of ints and of strings, struct with a nested "
+            "array, variant holding a closure, channel): the new task's value is a fresh object graph in the task's own heap with equal contents, the "
+            "spawner's stack loses exactly the captures, a mutation of the original is invisible in the copy, and a channel stays shared.",
+    "note": K_NOTE,
+}
+CLAIMS["C09"] = {
+    "engine": "K", "level": "model_checking",
+    "technique": "Kani/CBMC on single real ChannelWrite / ChannelRead steps over queues of 0..2 symbolic values, plus the ownership obligation on what the queue holds",
+    "text": "One-step harnesses on two real threads sharing a queue: a write appends at the back and never blocks, a read takes the front element and copies "
+            "it into the reader's heap, an empty read only rewinds the reader. By induction every written value is read once and in order. The "
+            "obligation that a queued heap value does not belong to the writer's heap FAILS on the real code (known finding: use after free when the "
+            "writer finishes first).",
+    "note": K_NOTE + " std::collections::VecDeque and Mutex behave as documented.",
+}
+CLAIMS["C10"] = {
+    "engine": "M2+K", "level": "model_checking",
+    "technique": "symbolic execution of the MIR of vm::Runtime (scheduler) against scripted threads: run(b1);run(b2) vs run(b1+b2) compared by z3 on every joint path; Kani on the thread layer",
+    "text": "The real scheduler code (MIR of run_n_steps, run_threads_round_robin, finish_thread_turn, drain_new_threads, update_status_helper, try_get_main) "
+            "is executed symbolically with every thread's behaviour an unbounded script of symbolic outcomes and symbolic budgets; slicing a budget in two "
+            "must step the same threads in the same order and end in the same status. The thread layer (run_n_steps(n) = n single steps, each preceded by "
+            "one collector increment) is a Kani harness; resumable string instructions keep their progress in the thread (C17).",
+    "note": M2_NOTE + " " + K_NOTE,
+}
+CLAIMS["C11"] = {
+    "engine": "M2+K", "level": "model_checking",
+    "technique": "symbolic execution of the MIR of vm::Runtime against scripted threads with z3 (status truthfulness obligations per path, one and two calls); Kani on the Stop / HostFunc / Panic arms",
+    "text": "For every script of thread outcomes, every valid initial queue state and every budget within the bound, z3 refutes on each path of the real "
+            "scheduler MIR that the reported status lies: Done iff main finished (whatever other tasks do), MainThreadError iff main failed (with main's "
+            "error), PendingHostFunc iff a thread waits for the host, steps_consumed = executed steps <= budget, no finished or waiting thread is stepped, "
+            "top() after Done is main's last value. The arms that set those flags (Stop, HostFunc with arguments and resume value, Panic) are Kani harnesses on the real step().",
+    "note": M2_NOTE + " " + K_NOTE,
+}
+CLAIMS["C16"] = {
+    "engine": "K", "level": "model_checking",
+    "technique": "bounded model checking of the float arms of the real step() with Kani/CBMC over all 2^64 bit patterns (IEEE-754 in CBMC)",
+    "text": "Every float arithmetic and comparison arm (variable and immediate forms) is decided for all operand bit patterns against the Rust operator / "
+            "a reference total order on the encoding; division by +-0.0 must raise the division-by-zero error in both forms; int<->float conversions (thorough).",
+    "note": K_NOTE + " CBMC's IEEE-754 model; division with two symbolic operands does not finish (divisor from a 10-value set).",
+}
+CLAIMS["C17"] = {
+    "engine": "K", "level": "model_checking",
+    "technique": "Kani/CBMC on ONE real step of each resumable string instruction from every valid in-flight state (loop invariant), strings of symbolic length <= 3",
+    "text": "String comparison and concatenation are resumable: from the entry state and from every in-flight state (progress index i, or (i1,i2)) satisfying "
+            "the loop invariant, one real step either finishes with the reference answer on the whole strings or advances by one byte and re-establishes "
+            "the invariant. Induction over steps then covers every way the scheduler can slice the operation.",
+    "note": K_NOTE,
+}
+CLAIMS["C30"] = {
+    "engine": "K", "level": "model_checking",
+    "technique": "Kani/CBMC on the real lexer kernel scan_for_unescaped_delim over 4 symbolic characters",
+    "text": "PARTIAL: only the delimiter scan of string literals is claimed: for every 4-character body over {backslash, quote, letter, newline} the real "
+            "scan returns the first delimiter not escaped by a backslash. Number lexing and escape processing did not finish under CBMC and are not claimed.",
+    "note": K_NOTE,
+}
+CLAIMS["C31"] = {
+    "engine": "K", "level": "model_checking",
+    "technique": "Kani/CBMC on the real operator-recognition kernels and precedence tables of the Pratt parser with symbolic tokens, against the documented table",
+    "text": "PARTIAL: for a symbolic token the real parse_binop / parse_prefix_op / precedence tables agree with book/src/language_reference/operators.md, "
+            "and a leading minus groups the same for a literal and a variable operand for every following token. The Pratt loop itself is out of reach "
+            "(every current_token() clones a String-owning token), so grouping of whole expressions is only claimed as far as the tables imply it.",
+    "note": K_NOTE,
+}
+CLAIMS["C32"] = {
+    "engine": "K+M2", "level": "model_checking",
+    "technique": "Kani/CBMC on the VM's real location lookup and stack-trace order over symbolic tables; symbolic execution of the MIR of create_source_location_tables with z3",
+    "text": "VM side: for symbolic tables and pc the real binary-search lookup names the entry covering the failing instruction (pc - 1) and the traceback lists "
+            "call sites innermost first. Compiler side: for line lists of <= 5 instructions with interleaved labels and symbolic (line, file, function) "
+            "triples the tables built by the real create_source_location_tables give every instruction its own triple under that lookup rule.",
+    "note": K_NOTE + " " + M2_NOTE,
+}
+CLAIMS["C36"] = {
+    "engine": "K", "level": "model_checking",
+    "technique": "Kani/CBMC round trip through the real host_bindings::VmType impls and VM heap constructors with symbolic values",
+    "text": "v.to_vm(); T::from_vm() returns v and restores the stack depth, for symbolic ints, floats (bitwise), bools, strings <= 2 bytes, tuples, "
+            "Option, Result, Vec<int>; host-function arguments arrive in declaration order.",
+    "note": K_NOTE,
+}
 NOT_APPLICABLE = {
     "C03": "quantifies over programs only; the failing behaviour is a panic inside the translator for a program shape. The program cannot be made symbolic through the parser/resolver/type checker (one hash-map insert = 1.7 M SAT variables, measured).",
     "C20": "decided entirely inside the resolver/type checker for a given program; no value-level quantifier for a solver to discharge.",
@@ -152,6 +264,9 @@ NOT_APPLICABLE = {
     "C22": "dispatch is decided by the monomorphiser for a given program; program-only quantifier.",
     "C34": "whole front-end pipeline over symbolic source text and cursor offsets; out of reach (lexer alone on 3 symbolic chars did not finish in 20 min).",
     "C35": "same pipeline as C34 plus agreement with the resolver's map.",
+    "C04": "the lexer's tokenize loop over symbolic characters does not finish under CBMC (measured: 2 symbolic characters > 1500 s; every token owns a String); no MIR-level model of char/String code was built.",
+    "C29": "comment skipping lives in the same tokenize loop (String::push / char iteration); only the 0-character case finished under CBMC (measured), which is not a claim worth making.",
+    "C33": "span arithmetic is spread over the tokenize loop and codespan's line index (external crate); out of reach for the same reason as C04.",
     "C37": "hashbrown-backed container: one IdSet insert costs CBMC 1.7 M variables / 2 min, insert+clone+drop exceeded 41 GB (measured).",
 }
 # properties planned but not yet built are listed here with the reason "not built yet" until their check exists
